@@ -28,6 +28,7 @@ import (
 	nkv "github.com/feichai0017/NoKV/kv"
 	"github.com/feichai0017/NoKV/pb"
 	"github.com/feichai0017/NoKV/percolator"
+	"github.com/feichai0017/NoKV/percolator/latch"
 	"github.com/feichai0017/NoKV/raftstore/kv"
 	"github.com/feichai0017/NoKV/utils"
 
@@ -306,6 +307,8 @@ func (c *caseCtx) exec(op string) string {
 			return "none"
 		}
 		return "lock(" + c.lockFields(l.Ts, l.TTL, l.Kind, l.MinCommitTs, l.Primary) + ")"
+	case f[0] == "race" && len(f) == 7:
+		return c.race(c.phys(hlib.UnHex(f[1])), u64(f[2]), u64(f[3]), u64(f[4]), u64(f[5]), f[6])
 	case f[0] == "dump" || f[0] == "inv":
 		return c.dump(f[0] == "inv")
 	case c.maint && f[0] == "rotate" && len(f) == 1:
@@ -328,6 +331,58 @@ func (c *caseCtx) exec(op string) string {
 		return res + " " + c.shape()
 	}
 	return "bad-op"
+}
+
+// raceLatches: the latch manager of the directed concurrency op (percolator's handlers take the
+// manager as an argument; kv.Apply uses its own for the sequential ops of the case).
+var raceLatches = latch.NewManager(64)
+
+// race: Commit and CheckTxnStatus of one primary, both queued on the key's latch while the harness
+// holds it, in the given order ("cm-cs": the commit is queued first), then released.  A sync.Mutex
+// whose waiters have waited longer than 1 ms hands over in arrival order, so the queue order is the
+// grant order; the reply nevertheless contains only what does not depend on it.
+func (c *caseCtx) race(key []byte, start, commit, cur, caller uint64, order string) string {
+	hold := raceLatches.Acquire([][]byte{key})
+	cmDone := make(chan *pb.KeyError, 1)
+	csDone := make(chan *pb.CheckTxnStatusResponse, 1)
+	runCm := func() {
+		go func() {
+			cmDone <- percolator.Commit(c.db, raceLatches, &pb.CommitRequest{Keys: [][]byte{key}, StartVersion: start, CommitVersion: commit})
+		}()
+	}
+	runCs := func() {
+		go func() {
+			csDone <- percolator.CheckTxnStatus(c.db, raceLatches, &pb.CheckTxnStatusRequest{PrimaryKey: key, LockTs: start, CurrentTs: cur, CallerStartTs: caller})
+		}()
+	}
+	if order == "cs-cm" {
+		runCs()
+		time.Sleep(8 * time.Millisecond)
+		runCm()
+	} else {
+		runCm()
+		time.Sleep(8 * time.Millisecond)
+		runCs()
+	}
+	time.Sleep(8 * time.Millisecond)
+	hold.Release()
+	var cmErr *pb.KeyError
+	var cs *pb.CheckTxnStatusResponse
+	select {
+	case cmErr = <-cmDone:
+	case <-time.After(20 * time.Second):
+		return "race:commit-stuck"
+	}
+	select {
+	case cs = <-csDone:
+	case <-time.After(20 * time.Second):
+		return "race:check-stuck"
+	}
+	csr := "ok"
+	if cs.GetError() != nil {
+		csr = "err"
+	}
+	return fmt.Sprintf("race:cm=%s:cs=%s", okOrErr(c.keyErr(cmErr)), csr)
 }
 
 type wrec struct {
@@ -791,7 +846,31 @@ func (e *engine) genMaintReads(r *hlib.Rand) []string {
 	return ops
 }
 
+// genRace: the primary of a transaction is committed while a reader checks its status (C19).  Both
+// requests are queued on the key's latch in either order; whichever runs first, the key reports no
+// lock once the commit has succeeded and carries the commit record.
+func (e *engine) genRace(r *hlib.Rand) []string {
+	k := hlib.Hex(hlib.Pick(r, keyPool))
+	var ops []string
+	for i, n := 0, 1+r.Intn(3); i < n; i++ {
+		st := uint64(10 * (i + 1) * 2)
+		ct := st + 5
+		caller := st + uint64(1+r.Intn(3)) // pushed min-commit = caller+1 <= ct: the commit is never refused
+		ops = append(ops, fmt.Sprintf("pw %d %s 100 0 P:%s:%s", st, k, k, hlib.Hex([]byte(fmt.Sprintf("c%d", st)))), "lock "+k,
+			fmt.Sprintf("race %s %d %d %d %d %s", k, st, ct, st+1, caller, hlib.Pick(r, []string{"cm-cs", "cm-cs", "cs-cm"})),
+			"lock "+k, fmt.Sprintf("get %s %d", k, ct+1))
+		if r.Chance(40) {
+			ops = append(ops, fmt.Sprintf("cm %d %d %s", st, ct, k), "lock "+k) // the client retries the commit
+		}
+	}
+	ops = append(ops, "inv", "dump")
+	return ops
+}
+
 func (e *engine) Gen(r *hlib.Rand, tier string) []string {
+	if e.prop == "C19" && r.Chance(3) {
+		return e.genRace(r)
+	}
 	pct := maintPct
 	if tier == "thorough" && os.Getenv("VERIF_PERC_MAINT_PCT") == "" {
 		pct = 8 // a maintenance case opens and closes a DB of its own
@@ -983,7 +1062,7 @@ func (e *engine) Rule() string {
 	case "C18":
 		return "C18: 2-5 transactions (start ts 10,20,..; commit ts start+5, sometimes +7 or below start) over 2-4 of 6 keys (prefix pairs, 00/ff bytes), requests in random order with duplicates, late requests, foreign keys, empty keys; non-trivial = at least one successful commit, one rollback or resolve, and one refused request (commit/prewrite answered with an error)"
 	case "C19":
-		return "C19: same histories, weighted to lock observations and CheckTxnStatus (ttl 0, small, 2^64-1 and wrapping; caller ts pushing min-commit); ~12% (thorough tier 8%) maintenance cases: 2-3 transactions on 1-2 keys with rotate / flush / compact l0move|drain|keep placed between prewrite, commit, rollback, resolve and check-status, the locks read back after every step (own DB, compactors stopped, lsm verif hooks); non-trivial = a key is seen locked and later unlocked, or CheckTxnStatus took an action (maintenance cases: additionally at least one flush happened in between)"
+		return "C19: same histories, weighted to lock observations and CheckTxnStatus (ttl 0, small, 2^64-1 and wrapping; caller ts pushing min-commit); ~12% (thorough tier 8%) maintenance cases: 2-3 transactions on 1-2 keys with rotate / flush / compact l0move|drain|keep placed between prewrite, commit, rollback, resolve and check-status, the locks read back after every step (own DB, compactors stopped, lsm verif hooks); about 3% race cases: Commit and CheckTxnStatus of one primary queued on the key's latch in either order (percolator handlers called with a harness-held latch.Manager), lock and records read back, commit retried; non-trivial = a key is seen locked and later unlocked, or CheckTxnStatus took an action (maintenance cases: additionally at least one flush happened in between)"
 	}
 	return "C17: same histories, weighted to reads: gets (each often repeated as a 1-key scan) and range scans at timestamps around every start/commit ts, 0 and 2^64-1; non-trivial = some read returned a committed value and some read met a lock, a rollback record or a lock-only record"
 }
